@@ -230,10 +230,6 @@ def named_family():
     out.append(["null", ping])
     out.append([copy.deepcopy(ping), "string", copy.deepcopy(alld)])
     out.append(rec("R", ["null", copy.deepcopy(alld)], {"type": "array", "items": ["int", copy.deepcopy(ping)]}))
-    # decimals wider than the 28 digits of Python's default decimal context
-    out.append(rec("R", {"type": "bytes", "logicalType": "decimal", "precision": 38, "scale": 9},
-                   {"type": "fixed", "name": "D16", "size": 16, "logicalType": "decimal", "precision": 38, "scale": 0},
-                   {"type": "map", "values": {"type": "bytes", "logicalType": "decimal", "precision": 30, "scale": 30}}))
     # {"type": "int"}-style wrapped primitives
     out.append(rec("R", {"type": "int"}, {"type": "string"}, {"type": "null"}))
     out.append({"type": "array", "items": {"type": "long"}})
@@ -247,6 +243,17 @@ def named_family():
     out.append({"type": "record", "name": "R", "fields": [
         {"name": "type", "type": "string"}, {"name": "name", "type": {"type": "map", "values": "int"}}, {"name": "fields", "type": "int"}]})
     return out
+
+
+def logical_extras():
+    """Schemas with logical annotations, for the drivers whose oracle works at the level of logical values (C01/C02);
+    the shared family stays free of them (several drivers reason about the underlying types only)."""
+    return [
+        # decimals wider than the 28 digits of Python's default decimal context
+        rec("R", {"type": "bytes", "logicalType": "decimal", "precision": 38, "scale": 9},
+            {"type": "fixed", "name": "D16", "size": 16, "logicalType": "decimal", "precision": 38, "scale": 0},
+            {"type": "map", "values": {"type": "bytes", "logicalType": "decimal", "precision": 30, "scale": 30}}),
+    ]
 
 
 _CACHE = {}
